@@ -268,7 +268,7 @@ theorem pollComplete_write_immediate (st : WSt) (e : Env) (k : Nat) (hd : st.wr.
     pollComplete streamWriteOps (WOp.new st) e (Host.packCode Host.COMPLETED k) =
       .ok (.ready (sresOf 0 k, { buf := { st.buf with cursor := st.buf.cursor + k }, wr := st.wr }),
            ⟨.done, none, false, none⟩, e)
-        ([.ch .swrite [st.wr.handle, min st.buf.remaining Limits.streamMaxLength, Host.packCode Host.COMPLETED k]] ++
+        ([.ch .swrite [st.wr.handle, min st.buf.remaining Limits.streamMaxLength, Host.packCode Host.COMPLETED k, st.buf.cursor]] ++
          (if st.buf.kind = .lists then (st.buf.window.take k).map (evDli st.buf.c) else [])) := by
   have hu := streamWrite_update_spec st 0 k (by omega) hk hk2 hc
   simp only [Host.COMPLETED] at hu ⊢
@@ -386,7 +386,7 @@ def GChan.offer (g : GChan) : Option Nat :=
   | .sread w => match w.state with | .start s => rstOffer s | _ => none
   | .snext .unpolled => match g.sr with | some rd => if rd.done then none else some 1 | none => none
   | .snext (.awaiting w) => match w.state with | .start s => rstOffer s | _ => none
-  | .scoll (.unpolled rd) => if rd.done then none else some (growCap g.kind 0)
+  | .scoll (.unpolled rd) => if rd.done then none else some (growCap g.esize 0)
   | .scoll (.awaiting w) => match w.state with | .start s => rstOffer s | _ => none
   | .adnext => match g.ad with
     | some (.idle rd) => if rd.done then none else some 1
